@@ -260,3 +260,11 @@ Definition next_after (a : string) (l : list string) : string :=
 Definition size_checked_against_msize : bool :=
   String.eqb (next_after "call:Gint32" (shape_of "Conn.recv")) "use:Conn.Msize"
   && String.eqb (next_after "call:Gint32" (shape_of "Clnt.recv")) "use:Clnt.Msize".
+
+(* log.go: Filter makes a reply channel of its own for every call and reads its answer from it (the answer is tied to
+   the caller); the ring is owned by the logger goroutine alone (idx and items are touched by doLog only) *)
+Definition logger_shape : bool :=
+  (let f := shape_of "Logger.Filter" in
+   before "call:make" "send:fltchan" f && imm_before "send:fltchan" "recv:c" f && negb (has "use:Logger.items" f))
+  && negb (has "use:Logger.items" (shape_of "Logger.Log")) && negb (has "set:Logger.idx" (shape_of "Logger.Log"))
+  && (let d := shape_of "Logger.doLog" in before "recv:logchan" "set:Logger.idx" d && has "recv:fltchan" d).
